@@ -207,6 +207,8 @@ class Exec:
         if key not in st.heap:
             if sort is None:
                 sort = {'$seq': ArrSeq, '$dhas': ArrHas, '$dval': ArrMap, '$dkeys': ArrSeq}.get(key, ArrV)
+                if key.startswith('own:'):
+                    sort = z3.ArraySort(z3.IntSort(), z3.BoolSort())
             st.heap[key] = z3.Const('H0_' + key.replace('$', 'S_').replace(':', '_'), sort)
         return st.heap[key]
 
@@ -251,6 +253,10 @@ class Exec:
             return is_none(v)
         if ty == 'func':
             return z3.And(is_r(v), rv(v) < 0)
+        if ty == 'symclass':
+            return is_r(v)
+        if ty == 'callable':
+            return z3.BoolVal(True)
         if ty in BUILTIN_TYPES:
             return z3.And(is_r(v), typ(rv(v)) == BUILTIN_TYPES[ty])
         if ty.startswith('obj:'):
@@ -283,7 +289,33 @@ class Exec:
         if st.alloc is not None and not self.spec_mode:
             st.assume(z3.Implies(is_r(t), rv(t) < st.alloc))
 
+    def cpos(self, name):
+        return z3.Function('cpos_' + name, z3.IntSort(), z3.IntSort(), z3.IntSort())
+
+    def symclass_owner(self, st, cref, name):
+        """the class whose own attribute `name` an attribute lookup on class `cref` finds (first owner along the chain)"""
+        own = self.harr(st, 'own:' + name)
+        pos = self.cpos(name)
+        o = z3.Int(fresh_name('owner'))
+        d = z3.Int(fresh_name('d'))
+        st.assume(z3.And(z3.Select(own, o), pos(cref, o) >= 0))
+        st.assume(z3.ForAll([d], z3.Implies(z3.And(z3.Select(own, d), pos(cref, d) >= 0), pos(cref, o) <= pos(cref, d))))
+        return o
+
+    def symclass_get(self, st, recv, name):
+        o = self.symclass_owner(st, rv(recv.t), name)
+        t = z3.Select(self.harr(st, 'f:' + name), o)
+        fty = REG.fields.get('symclass', {}).get(name)
+        if fty is not None:
+            st.assume(self.type_pred(fty, t, st))
+        self.assume_allocated(st, t)
+        return Val(t, self.static_ty(fty))
+
     def set_field(self, st, recv, field, val, node=None):
+        if recv.ty == 'symclass':
+            st.heap['own:' + field] = z3.Store(self.harr(st, 'own:' + field), rv(recv.t), z3.BoolVal(True))
+            st.heap['f:' + field] = z3.Store(self.harr(st, 'f:' + field), rv(recv.t), val.t)
+            return
         fty = self.field_type(recv.ty, field) if recv.ty else None
         if fty is not None and not self.spec_mode:
             name, line = self.site('field-type/' + field, node)
@@ -489,6 +521,10 @@ class Exec:
             if isinstance(g, ClassInfo):
                 return self.class_attr(g, e.attr, st, e)
         recv = self.ev(e.value, st)
+        if recv.ty == 'symclass':
+            if e.attr == '__dict__':
+                return Val(recv.t, ('classdict',))
+            return self.symclass_get(st, recv, e.attr)
         if recv.ty == 'module':
             nm = self.w.static_names.get(self._const_int(rv(recv.t)))
             if nm:
@@ -791,6 +827,11 @@ class Exec:
                 cs = sorted(set(lit))
                 return z3.Or(*[x == z3.StringVal(c) for c in cs]) if cs else z3.BoolVal(False)
             return z3.Or(*[x == z3.StringVal(s) for s in substrings(lit)])
+        if isinstance(b.ty, tuple) and b.ty[0] == 'classdict':
+            lnode = e.left if isinstance(e, ast.Compare) else None
+            if isinstance(lnode, ast.Constant) and isinstance(lnode.value, str):
+                return z3.Select(self.harr(st, 'own:' + lnode.value), rv(b.t))
+            raise OutOfSubset('computed name in cls.__dict__')
         if isinstance(rnode, (ast.List, ast.Tuple, ast.Set)):
             return z3.Or(*[self.py_eq(a, self.ev(x, st), st) for x in rnode.elts]) if rnode.elts else z3.BoolVal(False)
         if self.is_strlike(b):
